@@ -809,6 +809,8 @@ def replay(rec):
         global ROUND
         ROUND = [c["round"]]
         part_b(ctx, c["kind"], c["special"])
+    elif c.get("part") == "A2":
+        identity_cells(ctx)
     else:
         one_off(ctx)
     for v in ctx.violations.values():
